@@ -4,7 +4,7 @@
    [Reachable (step c) (Initial n B) s] ranges over EVERY schedule from every initial state with n Stop
    callers (any n) and budget B. *)
 From Coq Require Import List Arith Lia Bool.
-From Dastard Require Import C10.Conc C10.Model C10.Spec C10.Proofs C10.Proofs2 C10.Variant C10.Variant2 C10.RpcModel C10.RpcSpec C10.RpcProofs.
+From Dastard Require Import C10.Conc C10.Model C10.Spec C10.Proofs C10.Proofs2 C10.Variant C10.Variant2 C10.Release C10.RpcModel C10.RpcSpec C10.RpcProofs.
 Import ListNotations.
 
 (* In every reachable state: nothing has crashed; Active implies the run-done counter is 1 and the core
@@ -103,6 +103,18 @@ Theorem stop_returns_every_step_counts :
     (abort s = ChClosed -> counted c s t = true) /\ (flow_tid t = false -> counted c s t = true).
 Proof. exact every_step_counts. Qed.
 Print Assumptions stop_returns_every_step_counts.
+
+(* Release before close.  The producer's shutdown is two steps of the model (give the hardware back; then
+   close nextBlock), so this is a fact about interleavings: whenever nextBlock is closed after a successful Start,
+   whenever the core loop is on its way out, and whenever a Stop caller is past its wait (i.e. at the moment the
+   Stop that did the stopping returns), the devices are closed and the adapter is stopped. *)
+Theorem release_before_close :
+  forall n B c s, Reachable (step c) (Initial n B) s ->
+    (nb s = ChClosed -> starter s = StDone ROk -> dev s = false /\ adapter s = false)
+    /\ (core_exiting (core s) -> dev s = false /\ adapter s = false)
+    /\ (0 < n_atwaited (st s) + n_post (st s) + n_atret (st s) -> dev s = false /\ adapter s = false).
+Proof. exact closed_before_release. Qed.
+Print Assumptions release_before_close.
 
 (* ---------- the same at the RPC entry points (SourceControl.Start / Stop, model RpcModel.v) ----------
    The source underneath is what the theorems above establish: AnySource.Stop returns and leaves the source
